@@ -499,6 +499,14 @@ func GenXZ(r *sim.Rng, big bool) *XZ {
 			nch = r.Range(5, 12)
 		}
 		maxOps := r.Range(1, 60)
+		maxRaw := r.Range(1, 200)
+		if r.Chance(1, 10) && ds <= 1<<16 {
+			// uncompressed chunks larger than the declared dictionary
+			maxRaw = int(ds) * r.Range(1, 4)
+			if maxRaw > 1<<16 {
+				maxRaw = 1 << 16
+			}
+		}
 		if r.Chance(1, 12) {
 			// content of several windows over the smallest dictionary: ring wrap in
 			// the reader, matches at the window edge after the wrap
@@ -507,7 +515,7 @@ func GenXZ(r *sim.Rng, big bool) *XZ {
 			maxOps = r.Range(100, 400)
 		}
 		kinds := RandomLegalKinds(r, nch)
-		cs := Realise(r, kinds, SeqOptions{MaxOpsPerChunk: maxOps, MaxRaw: r.Range(1, 200), DictSize: ds, BigChunk: big && r.Chance(1, 4)})
+		cs := Realise(r, kinds, SeqOptions{MaxOpsPerChunk: maxOps, MaxRaw: maxRaw, DictSize: ds, BigChunk: big && r.Chance(1, 4)})
 		bs := refxz.BlockSpec{Data: cs.Stream, Content: cs.Content, DictByte: db,
 			WithCompSize: r.Chance(1, 3), WithUncomp: r.Chance(1, 3)}
 		if r.Chance(1, 6) {
